@@ -15,3 +15,5 @@ Definition mism_page := Eval vm_compute in
   failing (fun c : Z * Z * Z * res (list Z * Z * error) =>
     let '(len, size, pageN, o) := c in eqb_page (page (zseq 0 (Z.to_nat len)) size pageN) o) cases_page.
 Print mism_page.
+Definition mism_query := Eval vm_compute in failing session_matches cases_query.
+Print mism_query.
